@@ -4,6 +4,14 @@ Observed at pydrobert.torch.functional.slice_spect_data / chunk_token_sequences_
 the module forms) and at the chunk-torch-spect-data-dir command.  The oracles
 (vf/oracles/c10_slices.py, vf/oracles/c09_pad.py) are loop transcriptions of the documented
 policy text, one sequence at a time.
+
+Besides the values, the generators vary what must not matter (vf/padlay.py): the memory layout of
+every tensor argument (and of the tensors stored in the data directory), garbage in the regions the
+documentation says are not read (labels behind in_lens, tokens behind in_lens / ref_lens, the token
+ids under policy ref, the feature values under policy fixed), frame numbers beyond the int32 range,
+repeated use of the same tensors / module object / output directory, and - in the `*_large`
+sub-checks - sizes that cross 16 / 32 / 64 / 128 / 256 / 1024 / 2049 along the sequence, batch, token,
+lobe, segment-count and utterance-count dimensions, expanded from a few generated integers.
 """
 from __future__ import annotations
 
@@ -18,8 +26,16 @@ from hypothesis import strategies as st
 from ..core import Info, Reject, Violation, expect_raises, matcher, require, subcheck
 from ..oracles import c09_pad as P
 from ..oracles import c10_slices as O
+from .. import gen
+from .. import padlay as L
 
 WINDOWS = ["symmetric", "causal", "future"]
+V_LAYS = ["contiguous", "contiguous", "offset", "strided", "expanded"]
+M_LAYS = ["contiguous", "contiguous", "offset", "inner", "strided", "transposed", "last_strided"]  # 2-D / 3-D inputs
+R_LAYS = M_LAYS + ["expanded"]
+PATTERNS = [None, None, None, "twice", "reuse"]
+BIG_SCALE = 2 ** 31 + 7  # frame numbers beyond the int32 range (the documents say: long tensors)
+BAD_LABELS = [-1, 2 ** 62, -(2 ** 62), 0, 2 ** 31]
 
 
 def _lib():
@@ -29,11 +45,56 @@ def _lib():
     return F, M
 
 
-def _call_slicer(case, inp, in_lens, other_lens):
+class _Drawn:
+    def __init__(self, draw):
+        self.draw = draw
+
+    def __call__(self, lo, hi):
+        return self.draw(st.integers(lo, hi))
+
+    def choice(self, seq):
+        return self.draw(st.sampled_from(seq))
+
+
+class _Det:
+    """Integer source that is a pure function of (seed, idx, call number)."""
+
+    def __init__(self, seed, *idx):
+        self.seed, self.idx, self.k = seed, tuple(idx), 0
+
+    def __call__(self, lo, hi):
+        self.k += 1
+        return L.pick(lo, hi, self.seed, *(self.idx + (self.k,)))
+
+    def choice(self, seq):
+        return seq[self(0, len(seq) - 1)]
+
+
+def _groups(tier):
+    return L.GROUPS + ([4096] if tier == "thorough" else [])
+
+
+def _flip0(t):
+    return None if t is None else t.flip(0)
+
+
+def _slicer_outs(case, inp, in_lens, other_lens):
+    """The outputs to judge (each must be the documented windows): one call; pattern 'twice': a second call with
+    the very same tensor objects; pattern 'reuse': the same module object (or function) is first used on another
+    legal batch (the rows in reverse order)."""
     F, M = _lib()
     if case.get("entry") == "module":
-        return M.SliceSpectData(case["policy"], case["window"], case["valid"], case["lobe"])(inp, in_lens, other_lens)
-    return F.slice_spect_data(inp, in_lens, other_lens, case["policy"], case["window"], case["valid"], case["lobe"])
+        m = M.SliceSpectData(case["policy"], case["window"], case["valid"], case["lobe"])
+        call = lambda a, b, c: m(a, b, c)  # noqa: E731
+    else:
+        call = lambda a, b, c: F.slice_spect_data(a, b, c, case["policy"], case["window"], case["valid"], case["lobe"])  # noqa: E731
+    pattern = case.get("pattern")
+    if pattern == "reuse":
+        call(inp.flip(0), _flip0(in_lens), _flip0(other_lens))
+    outs = [call(inp, in_lens, other_lens)]
+    if pattern == "twice":
+        outs.append(call(inp, in_lens, other_lens))
+    return outs
 
 
 def _windows_of(slices, sources):
@@ -42,26 +103,77 @@ def _windows_of(slices, sources):
     return [(int(src), int(s), int(e)) for src, (s, e) in zip(sources.tolist(), slices.tolist())]
 
 
+def _brief(ws):
+    """Window lists can be long in the `*_large` sub-checks: report the first 40."""
+    ws = list(ws)
+    return ws if len(ws) <= 40 else {"count": len(ws), "first_40": ws[:40]}
+
+
+def _first_diff(got, exp):
+    for i, (a, b) in enumerate(zip(got, exp)):
+        if a != b:
+            return {"index": i, "got": a, "expected": b, "counts": [len(got), len(exp)]}
+    return {"index": min(len(got), len(exp)), "counts": [len(got), len(exp)]}
+
+
 def _cfg_classes(case):
-    return ["window_" + case["window"], "valid_only" if case["valid"] else "not_valid_only", "lobe_%d" % min(case["lobe"], 3)]
+    out = ["window_" + case["window"], "valid_only" if case["valid"] else "not_valid_only", "lobe_%d" % min(case["lobe"], 3)]
+    lab = L.thresh_label(case["lobe"])
+    if lab:
+        out.append("lobe_at_" + lab)
+    if case.get("pattern"):
+        out.append("pattern_" + case["pattern"])
+    return out
 
 
-def _lt(v):
+def _lt(v, lay=None, role=None, classes=None):
     import torch
 
-    return None if v is None else torch.tensor(v, dtype=torch.long)
+    if v is None:
+        return None
+    t = L.lay(torch.tensor(v, dtype=torch.long), lay)
+    c = L.layout_class(role or "lens", t, lay)
+    if c and classes is not None:
+        classes.append(c)
+    return t
+
+
+def _lay_input(t, case, classes, role="input"):
+    lay = (case.get("lay") or {}).get("input")
+    out = L.lay(t, lay)
+    c = L.layout_class(role, out, lay)
+    if c:
+        classes.append(c)
+    return out
+
+
+@st.composite
+def _extras(draw, in_lays=M_LAYS):
+    """What must not matter.  One case in four is plain."""
+    if draw(st.sampled_from([True, False, False, False])):
+        return {}
+    return {"lay": {"input": draw(st.sampled_from(in_lays)), "lens": draw(st.sampled_from(V_LAYS)),
+                    "other": draw(st.sampled_from(V_LAYS)), "slices": draw(st.sampled_from(M_LAYS))},
+            "garbage": draw(st.booleans()), "pattern": draw(st.sampled_from(PATTERNS))}
 
 
 # ------------------------------------------------------------------ policy "fixed"
+
+FILLS = [0, 0, "nan", "inf", "-inf"]
 
 
 def _fixed_check(case):
     import torch
 
     N, T, lens = case["N"], case["T"], case["lens"]
-    inp = torch.zeros((N, T) + tuple(case.get("trail", [])))
-    slices, sources = _call_slicer(case, inp, _lt(lens), None)
-    got = _windows_of(slices, sources)
+    classes = _cfg_classes(case) + L.size_classes(T=T, N=N)
+    fill = case.get("fill", 0)
+    # the fixed policy reads only the shape of its input: the feature values are whatever the caller has
+    inp = torch.full((N, T) + tuple(case.get("trail", [])), float(fill), dtype=getattr(torch, case.get("dtype", "float32")))
+    if fill != 0:
+        classes.append("features_nonfinite")
+    inp = _lay_input(inp, case, classes)
+    lens_t = _lt(lens, (case.get("lay") or {}).get("lens"), "lens", classes)
     eff = lens if lens is not None else [T] * N
     exp = []
     crossing = False
@@ -70,11 +182,15 @@ def _fixed_check(case):
             exp.append((n, s, e))
             if s < 0 or e > eff[n]:
                 crossing = True
-    require(got == exp, "fixed policy: windows differ from the documented ones", got, exp)
-    if case["valid"]:
-        for n, s, e in got:
-            require(0 <= s and e <= eff[n], "valid-only window leaves its sequence", (n, s, e), eff[n])
-    classes = _cfg_classes(case) + ["lens_given" if lens is not None else "lens_omitted"]
+    for k, (slices, sources) in enumerate(_slicer_outs(case, inp, lens_t, None)):
+        where = "" if k == 0 else " (second call with the same tensors)"
+        got = _windows_of(slices, sources)
+        require(got == exp, "fixed policy: windows differ from the documented ones" + where,
+                _brief(got) if len(got) <= 40 else _first_diff(got, exp), _brief(exp))
+        if case["valid"]:
+            for n, s, e in got:
+                require(0 <= s and e <= eff[n], "valid-only window leaves its sequence" + where, (n, s, e), eff[n])
+    classes.append("lens_given" if lens is not None else "lens_omitted")
     if crossing:
         classes.append("window_crosses_end")
     if any(v == 0 for v in eff):
@@ -84,7 +200,7 @@ def _fixed_check(case):
     if lens is None and not case["valid"] and case["window"] == "symmetric" and T % (case["lobe"] + 1) == (case["lobe"] + 1) // 2 \
             and case["lobe"] % 2 == 1:
         classes.append("mid_at_T_when_lens_omitted")
-    return Info(case["lobe"] > 0 and crossing, classes)
+    return Info(case["lobe"] > 0 and crossing, sorted(set(classes)))
 
 
 def _fixed_enum(tier):
@@ -113,14 +229,66 @@ def _fixed_cases(draw, tier):
     N = draw(st.integers(1, 3 if not big else 5))
     T = draw(st.integers(0, 10 if not big else 30))
     lens = draw(st.one_of(st.none(), st.lists(st.integers(0, T), min_size=N, max_size=N)))
-    return {"policy": "fixed", "N": N, "T": T, "lens": lens, "trail": draw(st.sampled_from([[], [2], [1, 2]])),
-            "window": draw(st.sampled_from(WINDOWS)), "valid": draw(st.booleans()),
-            "lobe": draw(st.integers(0, 4 if not big else 8)), "entry": draw(st.sampled_from(["fn", "module"]))}
+    c = {"policy": "fixed", "N": N, "T": T, "lens": lens, "trail": draw(st.sampled_from([[], [2], [1, 2]])),
+         "window": draw(st.sampled_from(WINDOWS)), "valid": draw(st.booleans()),
+         "lobe": draw(st.integers(0, 4 if not big else 8)), "entry": draw(st.sampled_from(["fn", "module"]))}
+    c.update(draw(_extras()))
+    if c.pop("garbage", False):
+        c["fill"] = draw(st.sampled_from(FILLS))
+        c["dtype"] = draw(st.sampled_from(["float32", "float64", "int64"])) if c["fill"] == 0 else draw(st.sampled_from(["float32", "float64"]))
+    return c
 
 
 subcheck("C10", "slice_fixed", lambda tier: _fixed_cases(tier), 600, 20000,
-         doc="policy fixed on generated (N, T incl. 0, trailing dims, in_lens given|omitted, window, valid, lobe 0..4|8)",
-         required_classes=["window_crosses_end", "lens_omitted", "lens_given"])(_fixed_check)
+         doc="policy fixed on generated (N, T incl. 0, trailing dims, in_lens given|omitted, window, valid, lobe 0..4|8); also with "
+             "non-finite feature values, float64 / int64 input, non-contiguous / offset layouts of input and in_lens, repeated calls",
+         required_classes=["window_crosses_end", "lens_omitted", "lens_given", "features_nonfinite", "input_transposed",
+                           "input_inner", "lens_strided", "pattern_twice", "pattern_reuse"])(_fixed_check)
+
+
+@st.composite
+def _fixed_large_cases(draw, tier):
+    c = {"policy": "fixed", "small": [draw(st.integers(0, 11)), draw(st.integers(0, 11))],
+            "seed": draw(st.integers(0, 10 ** 6)), "lens_kind": draw(st.sampled_from([None, "any", "any", "near_full", "extremes"])),
+            "window": draw(st.sampled_from(WINDOWS)), "valid": draw(st.booleans()), "entry": draw(st.sampled_from(["fn", "module"])),
+            "lay": draw(st.one_of(st.none(), st.fixed_dictionaries({"input": st.sampled_from(M_LAYS), "lens": st.sampled_from(V_LAYS)}))),
+            "pattern": draw(st.sampled_from(PATTERNS))}
+    c["dim"], c["size"] = L.dim_size_from(c, ["T", "N", "lobe"], _groups(tier))
+    return c
+
+
+def _expand_lens(kind, N, T, seed, lo=0):
+    if kind is None:
+        return None
+    if kind == "extremes":
+        opts = [lo, min(max(lo, 1), T), T, max(T - 1, lo)]
+        return [opts[L.pick(0, 3, seed, 1, n)] for n in range(N)]
+    if kind == "near_full":
+        return [max(lo, T - L.pick(0, 2, seed, 1, n)) for n in range(N)]
+    return [L.pick(lo, T, seed, 1, n) for n in range(N)]
+
+
+def _fixed_large_expand(c):
+    a, b = c["small"]
+    size = c["size"]
+    if c["dim"] == "T":
+        N, T = 1 + a % 3, size
+        lobe = [0, 1, 2, 3, 7, 15, 16, 17, size // 2, size - 1, size, size + 1][b]
+    elif c["dim"] == "N":
+        N, T, lobe = size, a % 9, b % 5
+    else:
+        lobe = size
+        N, T = 1 + a % 2, [0, 1, lobe - 1, lobe, lobe + 1, 2 * lobe, 2 * lobe + 1, 2 * lobe + 2, 3 * lobe + 5, lobe // 2, 3 * lobe, lobe + 2][b]
+    return dict(c, N=N, T=T, lobe=lobe, lens=_expand_lens(c["lens_kind"], N, T, c["seed"]), trail=[] if a % 2 else [2])
+
+
+@subcheck("C10", "slice_fixed_large", lambda tier: _fixed_large_cases(tier), 400, 6000,
+          doc="policy fixed with one of T / N / lobe at 15..17, 31..33, 63..65, 127..129, 255..257, 1023..1025, 2049 (thorough: also "
+              "4095..4097); in_lens omitted or expanded from (seed, row) by a pure integer hash; same per-sequence oracle",
+          required_classes=["T_at_16", "T_at_1024", "T_at_2049", "N_at_1024", "N_at_2049", "lobe_at_16", "lobe_at_1024",
+                            "window_crosses_end", "lens_omitted", "lens_given"])
+def _fixed_large_check(case):
+    return _fixed_check(_fixed_large_expand(case))
 
 
 # ------------------------------------------------------------------ policy "ali"
@@ -131,10 +299,18 @@ def _ali_check(case):
 
     ali, lens = case["ali"], case["lens"]
     N, T = len(ali), case["T"]
-    inp = torch.tensor(ali, dtype=torch.long).view(N, T)
-    slices, sources = _call_slicer(case, inp, _lt(lens), None)
-    got = _windows_of(slices, sources)
+    classes = _cfg_classes(case) + L.size_classes(T=T, N=N)
     eff = lens if lens is not None else [T] * N
+    data = ali
+    if case.get("garbage") and lens is not None and any(v < T for v in lens):
+        # labels behind in_lens are not part of the sequence: any value, changing at every frame
+        data = [list(row) for row in ali]
+        for n in range(N):
+            for t in range(lens[n], T):
+                data[n][t] = BAD_LABELS[(n + t) % len(BAD_LABELS)]
+        classes.append("garbage_beyond_len")
+    inp = _lay_input(torch.tensor(data, dtype=torch.long).view(N, T), case, classes)
+    lens_t = _lt(lens, (case.get("lay") or {}).get("lens"), "lens", classes)
     exp = []
     nruns = []
     clipped = False
@@ -146,13 +322,25 @@ def _ali_check(case):
         exp.extend((n, s, e) for s, e in ws)
         if case["lobe"] and 0 < len(segs) <= case["lobe"]:
             clipped = True
-    require(got == exp, "ali policy: windows differ from the documented ones", got, exp)
-    if case["valid"]:
-        for n, s, e in got:
-            require(0 <= s and e <= eff[n], "valid-only window leaves its sequence", (n, s, e), eff[n])
-    classes = _cfg_classes(case) + ["lens_given" if lens is not None else "lens_omitted"]
+    for k, (slices, sources) in enumerate(_slicer_outs(case, inp, lens_t, None)):
+        where = "" if k == 0 else " (second call with the same tensors)"
+        got = _windows_of(slices, sources)
+        require(got == exp, "ali policy: windows differ from the documented ones" + where,
+                _brief(got) if len(got) <= 40 else _first_diff(got, exp), _brief(exp))
+        if case["valid"]:
+            for n, s, e in got:
+                require(0 <= s and e <= eff[n], "valid-only window leaves its sequence" + where, (n, s, e), eff[n])
+    classes.append("lens_given" if lens is not None else "lens_omitted")
+    if case.get("labels"):
+        classes.append("labels_" + case["labels"])
     if any(r >= 3 for r in nruns):
         classes.append("runs_ge_3")
+    lab = L.thresh_label(max(nruns + [0]))
+    if lab:
+        classes.append("runs_at_" + lab)
+    lab = L.thresh_label(sum(nruns))
+    if lab:
+        classes.append("total_runs_at_" + lab)
     if any(v == T for v in eff) and T > 0:
         classes.append("full_length_sequence")
     if any(v == 0 for v in eff):
@@ -161,7 +349,7 @@ def _ali_check(case):
         classes.append("lobe_ge_runs")
     if case["lobe"] and case["valid"] and sum(nruns) < case["lobe"] * (2 if case["window"] == "symmetric" else 1):
         classes.append("lobe_offset_gt_total_runs")
-    return Info(any(r >= 3 for r in nruns) and case["lobe"] > 0, classes)
+    return Info(any(r >= 3 for r in nruns) and case["lobe"] > 0, sorted(set(classes)))
 
 
 def _ali_enum(tier):
@@ -172,8 +360,8 @@ def _ali_enum(tier):
         rows = []
         for bits in range(2 ** T):
             seq = [(bits >> i) & 1 for i in range(T)]
-            for L in range(0, T + 1):
-                rows.append((seq, L))
+            for Ln in range(0, T + 1):
+                rows.append((seq, Ln))
         for lobe in range(0, maxL + 1):
             for window in WINDOWS:
                 for valid in (True, False):
@@ -208,40 +396,128 @@ def _ali_cases(draw, tier):
             seq.extend([lab] * draw(st.integers(1, 4)))
         ali.append(seq[:T])
     lens = draw(st.one_of(st.none(), st.lists(st.one_of(st.integers(0, T), st.just(T)), min_size=N, max_size=N)))
-    return {"policy": "ali", "T": T, "ali": ali, "lens": lens, "window": draw(st.sampled_from(WINDOWS)),
-            "valid": draw(st.booleans()), "lobe": draw(st.integers(0, 4)), "entry": draw(st.sampled_from(["fn", "module"]))}
+    c = {"policy": "ali", "T": T, "ali": ali, "lens": lens, "window": draw(st.sampled_from(WINDOWS)),
+         "valid": draw(st.booleans()), "lobe": draw(st.integers(0, 4)), "entry": draw(st.sampled_from(["fn", "module"]))}
+    c.update(draw(_extras()))
+    if draw(st.sampled_from([True, False, False])):
+        # labels are arbitrary long values: shifted below zero / far beyond int32, or spread 2^32 apart
+        c["labels"] = draw(st.sampled_from(["negative", "huge", "wide", "wide"]))
+        f = {"negative": lambda v: v - 2, "huge": lambda v: v + 2 ** 40, "wide": lambda v: (v - 1) * 2 ** 32}[c["labels"]]
+        c["ali"] = [[f(v) for v in row] for row in ali]
+    return c
 
 
 subcheck("C10", "slice_ali", lambda tier: _ali_cases(tier), 800, 20000,
-         doc="policy ali on generated alignments (alphabet 1..3, any run structure, N<=3|5, T<=10|24, in_lens given|omitted, lobe 0..4)",
-         required_classes=["runs_ge_3", "full_length_sequence", "lens_omitted", "lobe_offset_gt_total_runs"])(_ali_check)
+         doc="policy ali on generated alignments (alphabet 1..3, any run structure, N<=3|5, T<=10|24, in_lens given|omitted, lobe 0..4); "
+             "also with garbage labels behind in_lens, negative / huge label values, non-contiguous / offset layouts, repeated calls",
+         required_classes=["runs_ge_3", "full_length_sequence", "lens_omitted", "lobe_offset_gt_total_runs", "garbage_beyond_len",
+                           "input_transposed", "input_inner", "input_offset", "lens_strided", "pattern_twice", "pattern_reuse",
+                           "labels_wide", "labels_negative"]
+         )(_ali_check)
+
+
+@st.composite
+def _ali_large_cases(draw, tier):
+    c = {"policy": "ali", "small": [draw(st.integers(0, 11)), draw(st.integers(0, 11))],
+            "seed": draw(st.integers(0, 10 ** 6)), "lens_kind": draw(st.sampled_from([None, "any", "near_full", "extremes"])),
+            "run_kind": draw(st.sampled_from(["short", "long", "mixed", "unit", "single"])),
+            "window": draw(st.sampled_from(WINDOWS)), "valid": draw(st.booleans()), "entry": draw(st.sampled_from(["fn", "module"])),
+            "lay": draw(st.one_of(st.none(), st.fixed_dictionaries({"input": st.sampled_from(M_LAYS), "lens": st.sampled_from(V_LAYS)}))),
+            "garbage": draw(st.booleans()), "pattern": draw(st.sampled_from(PATTERNS))}
+    c["dim"], c["size"] = L.dim_size_from(c, ["T", "N", "lobe", "runs"], _groups(tier))
+    return c
+
+
+def _expand_ali_row(kind, T, seed, n):
+    src = _Det(seed, 2, n)
+    seq = []
+    lab = src(0, 2)
+    while len(seq) < T:
+        k = kind if kind != "mixed" else src.choice(["short", "short", "long", "unit"])
+        if k == "single":
+            run = T
+        elif k == "unit":
+            run = 1
+        elif k == "long":
+            run = src(1, max(T // 4, 1))
+        else:
+            run = src(1, 3)
+        seq.extend([lab] * run)
+        lab = (lab + src(1, 2)) % 3  # a different label: every run is maximal
+    return seq[:T]
+
+
+def _ali_large_expand(c):
+    a, b = c["small"]
+    size, kind = c["size"], c["run_kind"]
+    if c["dim"] == "T":
+        N, T, lobe = 1 + a % 3, size, [0, 1, 2, 3, 4, 7, 15, 16, 17, 33, 64, size][b]
+    elif c["dim"] == "N":
+        N, T, lobe = size, 1 + a % 6, b % 4
+    elif c["dim"] == "lobe":
+        # the number of runs in the batch crosses lobe and 2 * lobe
+        lobe, N, kind = size, 1 + a % 2, "unit"
+        T = max(1, [lobe - 1, lobe, lobe + 1, lobe + 2, 2 * lobe - 1, 2 * lobe, 2 * lobe + 1, 2 * lobe + 2, lobe // 2, 3 * lobe, lobe + 5, 1][b])
+        if T > 2100:
+            T = lobe + 1 + b % 2
+    else:
+        # number of runs of one sequence at the threshold
+        N, T, lobe, kind = 1 + a % 2, size, b % 5, "unit"
+    ali = [_expand_ali_row(kind, T, c["seed"], n) for n in range(N)]
+    return dict(c, T=T, ali=ali, lobe=lobe, lens=_expand_lens(c["lens_kind"], N, T, c["seed"]))
+
+
+@subcheck("C10", "slice_ali_large", lambda tier: _ali_large_cases(tier), 300, 5000,
+          doc="policy ali with one of T / N / lobe / number of runs at 15..17, ..., 1023..1025, 2049 (thorough: also 4095..4097); "
+              "alignments (short / long / unit / single / mixed runs) and in_lens are expanded from (seed, row) by a pure integer hash; "
+              "same run-based oracle",
+          required_classes=["T_at_16", "T_at_1024", "T_at_2049", "N_at_1024", "N_at_2049", "lobe_at_16", "lobe_at_1024",
+                            "runs_at_16", "runs_at_1024", "runs_ge_3", "lobe_ge_runs"])
+def _ali_large_check(case):
+    return _ali_check(_ali_large_expand(case))
 
 
 # ------------------------------------------------------------------ policy "ref"
 
+TRIPLE_KINDS = ["known", "known", "known", "empty", "missing", "half_missing", "inverted", "beyond"]
+
+
+def _triple(src, r, frames):
+    kind = src.choice(TRIPLE_KINDS)
+    if kind == "missing":
+        s, e = -1, -1
+    elif kind == "half_missing":
+        v = src(0, frames)
+        s, e = ((-1, v), (v, -1))[src(0, 1)]
+    elif kind == "empty":
+        s = e = src(0, frames)
+    elif kind == "inverted":
+        s = src(1, frames + 1)
+        e = src(0, s - 1)
+    elif kind == "beyond":
+        s = src(0, frames + 2)
+        e = src(s, frames + 3)
+    else:
+        s = src(0, frames)
+        e = src(s, frames)
+    return [100 + r, s, e]
+
 
 @st.composite
 def _triples(draw, R, frames, ordered=False):
-    out = []
-    for r in range(R):
-        kind = draw(st.sampled_from(["known", "known", "known", "empty", "missing", "half_missing", "inverted", "beyond"]))
-        if kind == "missing":
-            s, e = -1, -1
-        elif kind == "half_missing":
-            s, e = draw(st.sampled_from([(-1, draw(st.integers(0, frames))), (draw(st.integers(0, frames)), -1)]))
-        elif kind == "empty":
-            s = e = draw(st.integers(0, frames))
-        elif kind == "inverted":
-            s = draw(st.integers(1, frames + 1))
-            e = draw(st.integers(0, s - 1))
-        elif kind == "beyond":
-            s = draw(st.integers(0, frames + 2))
-            e = draw(st.integers(s, frames + 3))
-        else:
-            s = draw(st.integers(0, frames))
-            e = draw(st.integers(s, frames))
-        out.append([100 + r, s, e])
-    return out
+    src = _Drawn(draw)
+    return [_triple(src, r, frames) for r in range(R)]
+
+
+def _well_defined_default(refs, lens, R):
+    """In place: make the default length well defined - the counted known segment with the latest end goes last."""
+    for n in range(len(refs)):
+        cnt = R if lens is None else lens[n]
+        known = [t for t in refs[n][:cnt] if t[1] >= 0 and t[2] >= 0]
+        if known:
+            last = max(known, key=lambda t: t[2])
+            i = refs[n].index(last)
+            refs[n][i], refs[n][cnt - 1] = refs[n][cnt - 1], refs[n][i]
 
 
 @st.composite
@@ -250,20 +526,25 @@ def _ref_cases(draw, tier):
     N = draw(st.integers(1, 3 if not big else 4))
     R = draw(st.integers(1, 5 if not big else 8))
     frames = draw(st.integers(0, 10))
-    refs = [draw(_triples(R, frames)) for _ in range(N)]
+    same_rows = draw(st.sampled_from([True] + [False] * 7))
+    if same_rows:
+        N = max(N, 2)
+        row = draw(_triples(R, frames))
+        refs = [[list(t) for t in row] for _ in range(N)]
+    else:
+        refs = [draw(_triples(R, frames)) for _ in range(N)]
     lens = draw(st.one_of(st.none(), st.lists(st.integers(0, R), min_size=N, max_size=N)))
     other = draw(st.one_of(st.none(), st.lists(st.integers(max(frames - 2, 0), frames + 1), min_size=N, max_size=N)))
-    if other is None and draw(st.sampled_from([True, True, False])):
-        # make the default length well defined: the counted known segment with the latest end goes last
-        for n in range(N):
-            cnt = R if lens is None else lens[n]
-            known = [t for t in refs[n][:cnt] if t[1] >= 0 and t[2] >= 0]
-            if known:
-                last = max(known, key=lambda t: t[2])
-                i = refs[n].index(last)
-                refs[n][i], refs[n][cnt - 1] = refs[n][cnt - 1], refs[n][i]
-    return {"policy": "ref", "R": R, "refs": refs, "lens": lens, "other_lens": other, "window": draw(st.sampled_from(WINDOWS)),
-            "valid": draw(st.booleans()), "lobe": draw(st.integers(0, 4)), "entry": draw(st.sampled_from(["fn", "module"]))}
+    if other is None and draw(st.sampled_from([True, True, False])) and not same_rows:
+        _well_defined_default(refs, lens, R)
+    c = {"policy": "ref", "R": R, "refs": refs, "lens": lens, "other_lens": other, "window": draw(st.sampled_from(WINDOWS)),
+         "valid": draw(st.booleans()), "lobe": draw(st.integers(0, 4)), "entry": draw(st.sampled_from(["fn", "module"]))}
+    c.update(draw(_extras(["expanded"] if same_rows else M_LAYS)))
+    if draw(st.sampled_from([True, False, False, False])):
+        c["scale"] = BIG_SCALE
+    if draw(st.sampled_from([True, False, False])):
+        c["tok_ids"] = draw(st.sampled_from(["negative", "huge", "zero"]))
+    return c
 
 
 def _default_other_len(triples):
@@ -280,23 +561,45 @@ def _default_other_len(triples):
     return None, False
 
 
-@subcheck("C10", "slice_ref", lambda tier: _ref_cases(tier), 1200, 30000,
-          doc="policy ref on generated (N, R, 3) segment lists incl. missing (-1), half-missing, empty, inverted, overlapping, unsorted, "
-              "beyond-the-length segments; in_lens / other_lens given|omitted; oracle = each known segment widened by the lobe and kept "
-              "under the documented conditions",
-          required_classes=["missing_segment", "other_lens_omitted", "other_lens_given", "lens_omitted", "empty_segment",
-                            "dropped_by_length"])
+def _prepare_refs(case, refs, lens, R, classes):
+    """(oracle refs, library refs): frame numbers scaled beyond int32 when the case asks for it (both); in the
+    library's copy the ignored token ids replaced and the triples behind in_lens / ref_lens overwritten with
+    garbage (known-looking segments with huge or negative numbers)."""
+    S = case.get("scale") or 1
+    if S != 1:
+        refs = [[[tok, s * S if s >= 0 else s, e * S if e >= 0 else e] for tok, s, e in row] for row in refs]
+        classes.append("frames_beyond_int32")
+    lib = [[list(t) for t in row] for row in refs]
+    if case.get("garbage") and lens is not None and any(v < R for v in lens):
+        junk = [[5, 0, 2 ** 62], [-3, 0, 1], [7, -(2 ** 62), 2 ** 62], [2 ** 62, 1, 2], [0, 0, 0], [-1, -1, -1]]
+        for n in range(len(lib)):
+            for r in range(lens[n], R):
+                lib[n][r] = list(junk[(n + r) % len(junk)])
+        classes.append("garbage_beyond_len")
+    return refs, lib
+
+
 def _ref_check(case):
     import torch
 
     refs, lens, other = case["refs"], case["lens"], case["other_lens"]
     N, R = len(refs), case["R"]
-    inp = torch.tensor(refs, dtype=torch.long).view(N, R, 3)
-    slices, sources = _call_slicer(case, inp, _lt(lens), _lt(other))
-    got = _windows_of(slices, sources)
+    classes = _cfg_classes(case) + L.size_classes(R=R, N=N) + ["lens_given" if lens is not None else "lens_omitted",
+                                                               "other_lens_given" if other is not None else "other_lens_omitted"]
+    refs, lib = _prepare_refs(case, refs, lens, R, classes)
+    S = case.get("scale") or 1
+    if other is not None:
+        other = [v * S for v in other]
+    if case.get("tok_ids"):
+        # policy ref: "input[..., 0] the token sequence (ignored)"
+        v = {"negative": -1, "huge": 2 ** 62, "zero": 0}[case["tok_ids"]]
+        lib = [[[v if case["tok_ids"] != "negative" else -1 - r, s, e] for r, (_, s, e) in enumerate(row)] for row in lib]
+        classes.append("token_ids_" + case["tok_ids"])
+    lay = case.get("lay") or {}
+    inp = _lay_input(torch.tensor(lib, dtype=torch.long).view(N, R, 3), case, classes)
+    lens_t = _lt(lens, lay.get("lens"), "lens", classes)
+    other_t = _lt(other, lay.get("other"), "other", classes)
     eff = lens if lens is not None else [R] * N
-    classes = _cfg_classes(case) + ["lens_given" if lens is not None else "lens_omitted",
-                                    "other_lens_given" if other is not None else "other_lens_omitted"]
     items, bound = [], []
     undetermined = False
     for n in range(N):
@@ -316,27 +619,113 @@ def _ref_check(case):
             classes.append("missing_segment")
         if any(s == e and s >= 0 for _, s, e in counted):
             classes.append("empty_segment")
+    nwin = 0
+    for k, (slices, sources) in enumerate(_slicer_outs(case, inp, lens_t, other_t)):
+        where = "" if k == 0 else " (second call with the same tensors)"
+        got = _windows_of(slices, sources)
+        nwin = len(got)
+        if undetermined:
+            # the documents do not define the default length here: only the part that every reading
+            # shares is asserted (each returned window is one of the windows without a length limit, in order)
+            loose = [(O.EITHER, x) for v, x in items]
+            require(O.match_optional(loose, got), "ref policy (other_lens omitted): a returned window is not a documented window" + where,
+                    _brief(got), _brief([x for _, x in loose]))
+            continue
+        require(O.match_optional(items, got), "ref policy: windows differ from the documented ones" + where, _brief(got),
+                _brief([(v,) + x for v, x in items]))
+        if case["valid"]:
+            for n, s, e in got:
+                require(0 <= s and e <= bound[n], "valid-only window leaves its sequence" + where, (n, s, e), bound[n])
     if undetermined:
-        # the documents do not define the default length here: only the part that every reading
-        # shares is asserted (each returned window is one of the windows without a length limit, in order)
-        loose = [(O.EITHER, x) for v, x in items]
-        require(O.match_optional(loose, got), "ref policy (other_lens omitted): a returned window is not a documented window",
-                got, [x for _, x in loose])
         return Info(False, sorted(set(classes + ["default_length_undetermined"])))
-    require(O.match_optional(items, got), "ref policy: windows differ from the documented ones", got,
-            [(v,) + x for v, x in items])
-    if case["valid"]:
-        for n, s, e in got:
-            require(0 <= s and e <= bound[n], "valid-only window leaves its sequence", (n, s, e), bound[n])
     if any(v == O.EITHER for v, _ in items):
         classes.append("start_at_length_undetermined")
-    nontrivial = "missing_segment" in classes and len(got) > 0
+    nontrivial = "missing_segment" in classes and nwin > 0
     return Info(nontrivial, sorted(set(classes)))
+
+
+subcheck("C10", "slice_ref", lambda tier: _ref_cases(tier), 1200, 30000,
+         doc="policy ref on generated (N, R, 3) segment lists incl. missing (-1), half-missing, empty, inverted, overlapping, unsorted, "
+             "beyond-the-length segments; in_lens / other_lens given|omitted; oracle = each known segment widened by the lobe and kept "
+             "under the documented conditions; also with garbage triples behind in_lens, negative / huge token ids (documented as "
+             "ignored), frame numbers beyond int32, non-contiguous / offset / expanded layouts, repeated calls",
+         required_classes=["missing_segment", "other_lens_omitted", "other_lens_given", "lens_omitted", "empty_segment",
+                           "dropped_by_length", "garbage_beyond_len", "token_ids_negative", "token_ids_huge", "frames_beyond_int32",
+                           "input_transposed", "input_inner", "input_offset", "input_last_strided", "input_expanded",
+                           "lens_strided", "other_strided", "pattern_twice", "pattern_reuse"])(_ref_check)
+
+
+@st.composite
+def _ref_large_cases(draw, tier):
+    c = {"policy": "ref", "small": [draw(st.integers(0, 11)), draw(st.integers(0, 11))],
+            "seed": draw(st.integers(0, 10 ** 6)), "lens_kind": draw(st.sampled_from([None, "any", "near_full", "extremes"])),
+            "other_kind": draw(st.sampled_from([None, "given", "given"])),
+            "window": draw(st.sampled_from(WINDOWS)), "valid": draw(st.booleans()), "entry": draw(st.sampled_from(["fn", "module"])),
+            "lay": draw(st.one_of(st.none(), st.fixed_dictionaries({"input": st.sampled_from(M_LAYS), "lens": st.sampled_from(V_LAYS),
+                                                                    "other": st.sampled_from(V_LAYS)}))),
+            "garbage": draw(st.booleans()), "scale": draw(st.sampled_from([None, None, BIG_SCALE])),
+            "tok_ids": draw(st.sampled_from([None, None, "negative", "huge"])), "pattern": draw(st.sampled_from(PATTERNS))}
+    c["dim"], c["size"] = L.dim_size_from(c, ["R", "N", "lobe"], _groups(tier))
+    return c
+
+
+def _ref_large_dims(c):
+    a, b = c["small"]
+    size = c["size"]
+    if c["dim"] == "R":
+        return 1 + a % 3, size, [0, 1, 2, 3, 4, 7, 16, 33, 64, 100, 1, 0][b]
+    if c["dim"] == "N":
+        return size, 1 + a % 5, b % 5
+    return 1 + a % 3, 1 + b % 6, size
+
+
+def _ref_large_expand(c):
+    N, R, lobe = _ref_large_dims(c)
+    frames = max(4, [R // 2, R, 3 * R, 10][c["small"][0] % 4]) + (lobe if c["dim"] == "lobe" else 0)
+    refs = [[_triple(_Det(c["seed"], 3, n, r), r, frames) for r in range(R)] for n in range(N)]
+    lens = _expand_lens(c["lens_kind"], N, R, c["seed"])
+    other = None
+    if c["other_kind"] == "given":
+        other = [L.pick(max(frames - 2, 0), frames + 1, c["seed"], 4, n) for n in range(N)]
+    elif L.pick(0, 2, c["seed"], 5):
+        _well_defined_default(refs, lens, R)
+    return dict(c, R=R, refs=refs, lens=lens, other_lens=other, lobe=lobe)
+
+
+@subcheck("C10", "slice_ref_large", lambda tier: _ref_large_cases(tier), 400, 6000,
+          doc="policy ref with one of R (tokens) / N / lobe at 15..17, ..., 1023..1025, 2049 (thorough: also 4095..4097); the triples "
+              "(known / empty / missing / half-missing / inverted / beyond) and lengths are expanded from (seed, row, token) by a pure "
+              "integer hash; same oracle",
+          required_classes=["R_at_16", "R_at_1024", "R_at_2049", "N_at_1024", "N_at_2049", "lobe_at_16", "lobe_at_1024",
+                            "missing_segment", "other_lens_omitted", "other_lens_given"])
+def _ref_large_check(case):
+    return _ref_check(_ref_large_expand(case))
 
 
 # ------------------------------------------------------------------ token chunking
 
 TOK_WHAT = "token boundaries are not relative to the slice start"
+SLICE_KINDS = ["any", "any", "zero_start", "cover", "cover", "empty", "on_boundary", "on_boundary", "wide"]
+
+
+def _tok_slice(src, kind, row, R, frames):
+    if kind == "zero_start":
+        a, b = 0, src(0, frames + 3)
+    elif kind == "cover":
+        a, b = src(-3, 0), src(frames, frames + 3)
+    elif kind == "empty":
+        a = b = src(-2, frames + 2)
+    elif kind == "wide":
+        a = src(-3, max(frames // 2, 0))
+        b = src(a, frames + 3)
+    elif kind == "on_boundary":
+        r = src(0, R - 1)
+        a = max(row[r][1], 0)
+        b = max(row[r][2], a) + src(0, 2)
+    else:
+        a = src(-3, frames + 3)
+        b = src(-3, frames + 3)
+    return [a, b]
 
 
 @st.composite
@@ -345,33 +734,28 @@ def _tok_cases(draw, tier):
     N = draw(st.integers(1, 3 if not big else 5))
     R = draw(st.integers(1, 5 if not big else 8))
     frames = draw(st.integers(0, 10))
-    refs = [draw(_triples(R, frames)) for _ in range(N)]
+    same_rows = draw(st.sampled_from([True] + [False] * 7))  # what the chunk command passes: one utterance expanded
+    if same_rows:
+        N = max(N, 2)
+        row = draw(_triples(R, frames))
+        refs = [[list(t) for t in row] for _ in range(N)]
+    else:
+        refs = [draw(_triples(R, frames)) for _ in range(N)]
+    neg_ids = draw(st.sampled_from([True] + [False] * 5))
     for n in range(N):  # distinct, non-contiguous token ids so that a kept token is identified by its id
         for r in range(R):
-            refs[n][r][0] = 7 * r + 3 + n
-    slices = []
-    for n in range(N):
-        kind = draw(st.sampled_from(["any", "any", "zero_start", "cover", "cover", "empty", "on_boundary", "on_boundary", "wide"]))
-        if kind == "zero_start":
-            a, b = 0, draw(st.integers(0, frames + 3))
-        elif kind == "cover":
-            a, b = draw(st.integers(-3, 0)), draw(st.integers(frames, frames + 3))
-        elif kind == "empty":
-            a = b = draw(st.integers(-2, frames + 2))
-        elif kind == "wide":
-            a = draw(st.integers(-3, max(frames // 2, 0)))
-            b = draw(st.integers(a, frames + 3))
-        elif kind == "on_boundary":
-            r = draw(st.integers(0, R - 1))
-            a = max(refs[n][r][1], 0)
-            b = max(refs[n][r][2], a) + draw(st.integers(0, 2))
-        else:
-            a = draw(st.integers(-3, frames + 3))
-            b = draw(st.integers(-3, frames + 3))
-        slices.append([a, b])
-    return {"R": R, "refs": refs, "slices": slices,
-            "ref_lens": draw(st.one_of(st.none(), st.lists(st.integers(0, R), min_size=N, max_size=N))),
-            "partial": draw(st.booleans()), "retain": draw(st.booleans()), "entry": draw(st.sampled_from(["fn", "module"]))}
+            refs[n][r][0] = 7 * r + 3 + (0 if same_rows else n)
+            if neg_ids:
+                refs[n][r][0] = -refs[n][r][0]
+    src = _Drawn(draw)
+    slices = [_tok_slice(src, draw(st.sampled_from(SLICE_KINDS)), refs[n], R, frames) for n in range(N)]
+    c = {"R": R, "refs": refs, "slices": slices,
+         "ref_lens": draw(st.one_of(st.none(), st.lists(st.integers(0, R), min_size=N, max_size=N))),
+         "partial": draw(st.booleans()), "retain": draw(st.booleans()), "entry": draw(st.sampled_from(["fn", "module"]))}
+    c.update(draw(_extras(["expanded"] if same_rows else M_LAYS)))
+    if draw(st.sampled_from([True, False, False, False])):
+        c["scale"] = BIG_SCALE
+    return c
 
 
 def _check_tokens(triples, a, b, partial, retain, got, where):
@@ -380,7 +764,7 @@ def _check_tokens(triples, a, b, partial, retain, got, where):
     ids = [g[0] for g in got]
     require(O.match_optional(items, ids), "%s: kept tokens are not exactly the tokens whose segments are %s the slice, in order"
             % (where, "overlapping" if partial else "contained in"),
-            {"kept": ids, "slice": [a, b]}, [[v, tok] + [s, e] for (v, tok), (_, s, e) in zip(items, triples)])
+            {"kept": _brief(ids), "slice": [a, b]}, _brief([[v, tok] + [s, e] for (v, tok), (_, s, e) in zip(items, triples)]))
     src = {tok: (s, e) for tok, s, e in triples}
     source = [[tok] + list(src[tok]) for tok in ids]
     shift = 0 if retain else a
@@ -394,53 +778,123 @@ def _check_tokens(triples, a, b, partial, retain, got, where):
     return len(ids), pending
 
 
-@subcheck("C10", "chunk_tokens", lambda tier: _tok_cases(tier), 1500, 40000,
-          doc="chunk_token_sequences_by_slices on generated refs (known / missing / empty / inverted segments), slices with negative "
-              "and large starts, partial, retain, ref_lens given|omitted: kept = tokens contained in (partial: overlapping) the slice, "
-              "in order; boundaries unchanged if retain else minus the slice start",
-          required_classes=["nonzero_start_kept_token", "partial", "retain", "ref_lens_omitted", "missing_segment"])
 def _tok_check(case):
     import torch
 
     F, M = _lib()
     refs, slices, ref_lens = case["refs"], case["slices"], case["ref_lens"]
     N, R = len(refs), case["R"]
-    refs_t = torch.tensor(refs, dtype=torch.long).view(N, R, 3)
-    slices_t = torch.tensor(slices, dtype=torch.long).view(N, 2)
-    if case["entry"] == "module":
-        chunked, clens = M.ChunkTokenSequencesBySlices(case["partial"], case["retain"])(refs_t, slices_t, _lt(ref_lens))
-    else:
-        chunked, clens = F.chunk_token_sequences_by_slices(refs_t, slices_t, _lt(ref_lens), case["partial"], case["retain"])
-    require(tuple(clens.shape) == (N,), "chunked_lens is not of shape (N,)", list(clens.shape), [N])
-    clens = clens.tolist()
-    require(chunked.ndim == 3 and chunked.shape[0] == N and chunked.shape[2] == 3 and chunked.shape[1] >= max(clens + [0]),
-            "chunked is not of shape (N, R' >= max count, 3)", list(chunked.shape), [N, max(clens + [0]), 3])
-    require(all(0 <= c <= R for c in clens), "chunked_lens out of range", clens, [0, R])
-    eff = ref_lens if ref_lens is not None else [R] * N
     classes = ["partial" if case["partial"] else "full", "retain" if case["retain"] else "relative",
-               "ref_lens_given" if ref_lens is not None else "ref_lens_omitted"]
+               "ref_lens_given" if ref_lens is not None else "ref_lens_omitted"] + L.size_classes(R=R, N=N)
+    if case.get("pattern"):
+        classes.append("pattern_" + case["pattern"])
+    refs, lib = _prepare_refs(case, refs, ref_lens, R, classes)
+    S = case.get("scale") or 1
+    slices = [[a * S, b * S] for a, b in slices]
+    lay = case.get("lay") or {}
+    refs_t = _lay_input(torch.tensor(lib, dtype=torch.long).view(N, R, 3), case, classes)
+    slices_t = L.lay(torch.tensor(slices, dtype=torch.long).view(N, 2), lay.get("slices"))
+    c = L.layout_class("slices", slices_t, lay.get("slices"))
+    if c:
+        classes.append(c)
+    lens_t = _lt(ref_lens, lay.get("lens"), "lens", classes)
+    if case["entry"] == "module":
+        m = M.ChunkTokenSequencesBySlices(case["partial"], case["retain"])
+        call = lambda a, b, c: m(a, b, c)  # noqa: E731
+    else:
+        call = lambda a, b, c: F.chunk_token_sequences_by_slices(a, b, c, case["partial"], case["retain"])  # noqa: E731
+    pattern = case.get("pattern")
+    if pattern == "reuse":
+        call(refs_t.flip(0), slices_t.flip(0), _flip0(lens_t))
+    outs = [call(refs_t, slices_t, lens_t)]
+    if pattern == "twice":
+        outs.append(call(refs_t, slices_t, lens_t))
+    eff = ref_lens if ref_lens is not None else [R] * N
     nontrivial = False
     pending = None
-    for n in range(N):
-        a, b = slices[n]
-        got = [tuple(t) for t in chunked[n, :clens[n]].tolist()]
-        counted = refs[n][:eff[n]]
-        kept, pend = _check_tokens(counted, a, b, case["partial"], case["retain"], got, "row %d" % n)
-        pending = pending or pend
-        if kept and a != 0:
-            classes.append("nonzero_start_kept_token")
-            nontrivial = True
-        if kept and a < 0:
-            classes.append("negative_start_kept_token")
-        if any(s < 0 or e < 0 for _, s, e in counted):
-            classes.append("missing_segment")
-        if any(O.token_verdict(s, e, a, b, case["partial"]) == O.EITHER for _, s, e in counted):
-            classes.append("undetermined_token")
-        if kept == 0:
-            classes.append("row_keeps_nothing")
+    for k, (chunked, clens) in enumerate(outs):
+        tag = "" if k == 0 else " (second call with the same tensors)"
+        require(tuple(clens.shape) == (N,), "chunked_lens is not of shape (N,)" + tag, list(clens.shape), [N])
+        clens = clens.tolist()
+        require(chunked.ndim == 3 and chunked.shape[0] == N and chunked.shape[2] == 3 and chunked.shape[1] >= max(clens + [0]),
+                "chunked is not of shape (N, R' >= max count, 3)" + tag, list(chunked.shape), [N, max(clens + [0]), 3])
+        require(all(0 <= c <= R for c in clens), "chunked_lens out of range" + tag, _brief(clens), [0, R])
+        for n in range(N):
+            a, b = slices[n]
+            got = [tuple(t) for t in chunked[n, :clens[n]].tolist()]
+            counted = refs[n][:eff[n]]
+            kept, pend = _check_tokens(counted, a, b, case["partial"], case["retain"], got, "row %d%s" % (n, tag))
+            pending = pending or pend
+            if k:
+                continue
+            if kept and a != 0:
+                classes.append("nonzero_start_kept_token")
+                nontrivial = True
+            if kept and a < 0:
+                classes.append("negative_start_kept_token")
+            if any(s < 0 or e < 0 for _, s, e in counted):
+                classes.append("missing_segment")
+            if any(O.token_verdict(s, e, a, b, case["partial"]) == O.EITHER for _, s, e in counted):
+                classes.append("undetermined_token")
+            if kept == 0:
+                classes.append("row_keeps_nothing")
+            if kept and counted and counted[0][0] < 0:
+                classes.append("negative_token_ids")
     if pending is not None:
         raise pending
     return Info(nontrivial, sorted(set(classes)))
+
+
+@st.composite
+def _tok_large_cases(draw, tier):
+    c = {"small": [draw(st.integers(0, 11)), draw(st.integers(0, 11))],
+            "seed": draw(st.integers(0, 10 ** 6)), "lens_kind": draw(st.sampled_from([None, "any", "near_full", "extremes"])),
+            "partial": draw(st.booleans()), "retain": draw(st.booleans()), "entry": draw(st.sampled_from(["fn", "module"])),
+            "lay": draw(st.one_of(st.none(), st.fixed_dictionaries({"input": st.sampled_from(M_LAYS), "lens": st.sampled_from(V_LAYS),
+                                                                    "slices": st.sampled_from(M_LAYS)}))),
+            "garbage": draw(st.booleans()), "scale": draw(st.sampled_from([None, None, BIG_SCALE])),
+            "pattern": draw(st.sampled_from(PATTERNS))}
+    c["dim"], c["size"] = L.dim_size_from(c, ["R", "N"], _groups(tier))
+    return c
+
+
+def _tok_large_expand(c):
+    a, b = c["small"]
+    if c["dim"] == "R":
+        N, R = 1 + a % 3, c["size"]
+    else:
+        N, R = c["size"], 1 + a % 5
+    frames = max(4, [R // 2, R, 3 * R, 10][b % 4])
+    refs = []
+    for n in range(N):
+        row = [_triple(_Det(c["seed"], 3, n, r), r, frames) for r in range(R)]
+        for r in range(R):
+            row[r][0] = 7 * r + 3 + n % 5
+        refs.append(row)
+    slices = []
+    for n in range(N):
+        src = _Det(c["seed"], 6, n)
+        slices.append(_tok_slice(src, src.choice(SLICE_KINDS), refs[n], R, frames))
+    return dict(c, R=R, refs=refs, slices=slices, ref_lens=_expand_lens(c["lens_kind"], N, R, c["seed"]))
+
+
+def _tok_check_any(case):
+    # the large cases live in the same sub-check as the small ones (the recorded finding KF-C10-1 is keyed by sub-check name)
+    return _tok_check(_tok_large_expand(case) if "dim" in case else case)
+
+
+subcheck("C10", "chunk_tokens", lambda tier: gen.weighted((6, _tok_cases(tier)), (1, _tok_large_cases(tier))), 1800, 44000,
+         doc="chunk_token_sequences_by_slices on generated refs (known / missing / empty / inverted segments), slices with negative "
+             "and large starts, partial, retain, ref_lens given|omitted: kept = tokens contained in (partial: overlapping) the slice, "
+             "in order; boundaries unchanged if retain else minus the slice start; also with garbage triples behind ref_lens, negative "
+             "token ids, frame numbers beyond int32, non-contiguous / offset / expanded layouts of refs, slices, ref_lens, repeated calls; "
+             "one case in seven has R (tokens) or N at 15..17, ..., 1023..1025, 2049 (thorough: also 4095..4097) with triples, slices and "
+             "ref_lens expanded from (seed, row, token) by a pure integer hash",
+         required_classes=["nonzero_start_kept_token", "partial", "retain", "ref_lens_omitted", "missing_segment",
+                           "garbage_beyond_len", "negative_token_ids", "frames_beyond_int32", "input_transposed", "input_inner",
+                           "input_offset", "input_last_strided", "input_expanded", "slices_transposed", "slices_last_strided",
+                           "lens_strided", "pattern_twice", "pattern_reuse", "R_at_16", "R_at_1024", "R_at_2049", "N_at_1024",
+                           "N_at_2049"])(_tok_check_any)
 
 
 @matcher("c10_token_boundaries_added")
@@ -461,6 +915,8 @@ def _m_token_sign(case, v):
 
 
 # ------------------------------------------------------------------ the chunking command, end to end
+
+SAVE_LAYS = ["contiguous", "contiguous", "offset", "inner", "strided", "transposed", "last_strided"]
 
 
 @st.composite
@@ -501,10 +957,19 @@ def _dir_cases(draw, tier):
                     ref.append(last)
         utts.append({"T": T, "ali": ali, "ref": ref})
     pad_mode = draw(st.sampled_from([None, None, "constant", "replicate", "reflect"]))
-    return {"utts": utts, "fdim": fdim, "policy": policy, "window": draw(st.sampled_from(WINDOWS)),
-            "lobe": draw(st.sampled_from([0, 0, 1, 1, 1, 2, 2, 3])), "pad_mode": pad_mode, "pad_constant": draw(st.sampled_from([0, -1, 3])),
-            "partial": draw(st.sampled_from([False, False, True])), "retain": draw(st.sampled_from([False, False, False, True])),
-            "fmt": draw(st.sampled_from(["idx", "default"])), "prefix": draw(st.sampled_from(["", "", "p-"]))}
+    c = {"utts": utts, "fdim": fdim, "policy": policy, "window": draw(st.sampled_from(WINDOWS)),
+         "lobe": draw(st.sampled_from([0, 0, 1, 1, 1, 2, 2, 3])), "pad_mode": pad_mode, "pad_constant": draw(st.sampled_from([0, -1, 3])),
+         "partial": draw(st.sampled_from([False, False, True])), "retain": draw(st.sampled_from([False, False, False, True])),
+         "fmt": draw(st.sampled_from(["idx", "default"])), "prefix": draw(st.sampled_from(["", "", "p-"]))}
+    if not draw(st.sampled_from([True, False, False])):
+        # what must not matter: how the stored tensors lie in memory (a saved view keeps its strides and offset), the
+        # feature dtype, non-finite feature values, an output directory that already holds (part of) an earlier run
+        c["save_lay"] = {"feat": draw(st.sampled_from(SAVE_LAYS)), "ali": draw(st.sampled_from(["contiguous", "offset", "strided"])),
+                         "ref": draw(st.sampled_from(SAVE_LAYS))}
+        c["feat_dtype"] = draw(st.sampled_from(["float32", "float32", "float64"]))
+        c["nonfinite"] = draw(st.sampled_from([None, None, "inf", "-inf", "both"]))
+        c["rerun"] = draw(st.sampled_from([None, None, "same", "partial"]))
+    return c
 
 
 def _utt_windows(case, utt):
@@ -525,13 +990,17 @@ def _utt_windows(case, utt):
     return [(s, e) for _, s, e in ws]
 
 
-@subcheck("C10", "chunk_dir_cli", lambda tier: _dir_cases(tier), 240, 4000,
-          doc="a generated well-formed data directory (1..3|5 utterances, feat + optional ali / ref) is chunked by the "
-              "chunk-torch-spect-data-dir command under generated flags (policy, window, lobe, pad mode, partial, retain, format): "
-              "exactly the oracle's chunk names are written, every chunk's feat / ali / ref equals the oracle's restriction of the "
-              "source, and (contained tokens, relative boundaries) the output passes validate_spect_data_set",
-          required_classes=["policy_fixed", "policy_ali", "policy_ref", "validated", "padded_chunk", "ref_chunk_with_token"],
-          timeout_s=3000)
+def _make_feat(case, u, T):
+    x = P.make_x(1, T, [case["fdim"]], base=1 + 100 * u, dtype=case.get("feat_dtype", "float32"))[0]
+    kind = case.get("nonfinite")
+    if kind and T:
+        # isolated non-finite frames (log-energies of silence): frame u % T (and the last one for "both")
+        x[u % T, 0] = float("-inf") if kind == "-inf" else float("inf")
+        if kind == "both":
+            x[T - 1, -1] = float("-inf")
+    return x
+
+
 def _dir_check(case):
     import torch
     from pydrobert.torch import command_line, data
@@ -549,7 +1018,7 @@ def _dir_check(case):
     for u, utt in enumerate(case["utts"]):
         uid = "utt%d" % u
         T = utt["T"]
-        feats[uid] = P.make_x(1, T, [case["fdim"]], base=1 + 100 * u)[0]
+        feats[uid] = _make_feat(case, u, T)
         for idx, (s, e) in enumerate(windows[u]):
             l, r = P.slice_pads(s, e, T)
             if not P.pad_legal(mode, T, l, r):
@@ -560,6 +1029,8 @@ def _dir_check(case):
             expected[name] = (uid, utt, s, e)
     has_ali = case["utts"][0]["ali"] is not None
     has_ref = case["utts"][0]["ref"] is not None
+    save_lay = case.get("save_lay") or {}
+    feat_dtype = getattr(torch, case.get("feat_dtype", "float32"))
     tmp = tempfile.mkdtemp(prefix="vf_")
     try:
         in_dir, out_dir = os.path.join(tmp, "in"), os.path.join(tmp, "out")
@@ -568,13 +1039,20 @@ def _dir_check(case):
             os.makedirs(os.path.join(in_dir, "ali"))
         if has_ref:
             os.makedirs(os.path.join(in_dir, "ref"))
+        classes = ["policy_" + case["policy"], "pad_" + str(case["pad_mode"]), "fmt_" + fmt_all] + \
+                  ["window_" + case["window"], "lobe_%d" % min(case["lobe"], 3)] + L.size_classes(utts=len(case["utts"]),
+                                                                                                  T=max(u["T"] for u in case["utts"]))
         for u, utt in enumerate(case["utts"]):
             base = "%sutt%d.pt" % (prefix, u)
-            torch.save(torch.from_numpy(feats["utt%d" % u].copy()), os.path.join(in_dir, "feat", base))
+            t = L.lay(torch.from_numpy(feats["utt%d" % u].copy()), save_lay.get("feat"))
+            if not t.is_contiguous() or t.storage_offset():
+                classes.append("saved_view")
+            torch.save(t, os.path.join(in_dir, "feat", base))
             if has_ali:
-                torch.save(torch.tensor(utt["ali"], dtype=torch.long), os.path.join(in_dir, "ali", base))
+                torch.save(L.lay(torch.tensor(utt["ali"], dtype=torch.long), save_lay.get("ali")), os.path.join(in_dir, "ali", base))
             if has_ref:
-                torch.save(torch.tensor(utt["ref"], dtype=torch.long).view(-1, 3), os.path.join(in_dir, "ref", base))
+                torch.save(L.lay(torch.tensor(utt["ref"], dtype=torch.long).view(-1, 3), save_lay.get("ref")),
+                           os.path.join(in_dir, "ref", base))
         args = [in_dir, out_dir, "--policy", case["policy"], "--window-type", case["window"], "--lobe-size", str(case["lobe"]),
                 "--pad-constant", str(float(value)), "--num-workers", "0"]  # serial: no worker processes
         if prefix:
@@ -587,8 +1065,10 @@ def _dir_check(case):
             args.append("--retain-token-boundaries")
         if fmt_all == "idx":
             args.append("--format-utt={utt_id}.{idx}")
-        classes = ["policy_" + case["policy"], "pad_" + str(case["pad_mode"]), "fmt_" + fmt_all] + \
-                  ["window_" + case["window"], "lobe_%d" % case["lobe"]]
+        if case.get("feat_dtype", "float32") != "float32":
+            classes.append("feat_" + case["feat_dtype"])
+        if case.get("nonfinite"):
+            classes.append("nonfinite_features")
         with warnings.catch_warnings():
             warnings.simplefilter("ignore")
             if illegal:
@@ -596,23 +1076,38 @@ def _dir_check(case):
                     command_line.chunk_torch_spect_data_dir(args)
                 return Info(False, classes + ["documented_exception"])
             rc = command_line.chunk_torch_spect_data_dir(args)
-        require(not rc, "the command returned a non-zero status", rc, 0)
+            require(not rc, "the command returned a non-zero status", rc, 0)
+            if case.get("rerun"):
+                # the command is run again over its own output (complete, or with every second file removed as
+                # after an interrupted run): it must (re)write every chunk
+                if case["rerun"] == "partial":
+                    for sub in ("feat", "ali", "ref"):
+                        d = os.path.join(out_dir, sub)
+                        if os.path.isdir(d):
+                            for i, fn in enumerate(sorted(os.listdir(d))):
+                                if (i + len(sub)) % 2:
+                                    os.remove(os.path.join(d, fn))
+                rc = command_line.chunk_torch_spect_data_dir(args)
+                require(not rc, "the command returned a non-zero status when run again over its own output", rc, 0)
+                classes.append("rerun_" + case["rerun"])
         names = sorted(expected)
         files = sorted(os.listdir(os.path.join(out_dir, "feat")))
         require(files == sorted(prefix + n + ".pt" for n in names), "chunk files written differ from the documented windows",
-                files, sorted(prefix + n + ".pt" for n in names))
+                _brief(files), _brief(sorted(prefix + n + ".pt" for n in names)))
         for sub, present in (("ali", has_ali), ("ref", has_ref)):
             d = os.path.join(out_dir, sub)
             got_files = sorted(os.listdir(d)) if os.path.isdir(d) else []
-            require(got_files == (files if present else []), "%s files differ from the feature chunks" % sub, got_files,
-                    files if present else [])
+            require(got_files == (files if present else []), "%s files differ from the feature chunks" % sub, _brief(got_files),
+                    _brief(files if present else []))
         kept_any = False
         nonzero_kept = False
         pending = None
         for name in names:
             uid, utt, s, e = expected[name]
             base = prefix + name + ".pt"
-            got = torch.load(os.path.join(out_dir, "feat", base)).numpy()
+            got = torch.load(os.path.join(out_dir, "feat", base))
+            require(got.dtype == feat_dtype, "chunk %s: feature dtype differs from the source's" % name, str(got.dtype), str(feat_dtype))
+            got = got.numpy()
             exp = P.chunk_row(feats[uid], s, e, mode, value)
             require(got.shape == exp.shape and bool(np.array_equal(got, exp)),
                     "chunk %s: features differ from the source restricted to [%d, %d)" % (name, s, e), got, exp)
@@ -649,6 +1144,100 @@ def _dir_check(case):
             classes.append("nonzero_start_kept_token")
         if not names:
             classes.append("no_chunks")
-        return Info(bool(names) and (case["lobe"] > 0 and crossing or nonzero_kept or case["policy"] != "fixed"), classes)
+        lab = L.thresh_label(len(names))
+        if lab:
+            classes.append("chunks_at_" + lab)
+        return Info(bool(names) and (case["lobe"] > 0 and crossing or nonzero_kept or case["policy"] != "fixed"), sorted(set(classes)))
     finally:
         shutil.rmtree(tmp, ignore_errors=True)
+
+
+@st.composite
+def _dir_large_cases(draw, tier):
+    big = tier == "thorough"
+    policy = draw(st.sampled_from(["fixed", "ali", "ref"]))
+    c = {"small": [draw(st.integers(0, 11)), draw(st.integers(0, 11))], "seed": draw(st.integers(0, 10 ** 6)),
+            "policy": policy, "has_ali": policy == "ali" or draw(st.booleans()), "has_ref": policy == "ref" or draw(st.booleans()),
+            "fdim": draw(st.integers(1, 3)), "window": draw(st.sampled_from(WINDOWS)),
+            "pad_mode": draw(st.sampled_from([None, None, "constant", "replicate", "reflect"])), "pad_constant": draw(st.sampled_from([0, -1, 3])),
+            "partial": draw(st.sampled_from([False, False, True])), "retain": draw(st.sampled_from([False, False, False, True])),
+            "fmt": draw(st.sampled_from(["idx", "default"])), "prefix": draw(st.sampled_from(["", "p-"])),
+            "save_lay": draw(st.one_of(st.none(), st.fixed_dictionaries({"feat": st.sampled_from(SAVE_LAYS), "ali": st.sampled_from(["contiguous", "offset", "strided"]),
+                                                                         "ref": st.sampled_from(SAVE_LAYS)})))}
+    # two cases in three vary the number of utterances, one the length of one utterance
+    dim, _ = L.dim_size_from(c, ["utts", "utts", "T"], [16])
+    if dim == "utts":
+        c["dim"], c["size"] = L.dim_size_from(c, ["utts"], (16, 32, 64, 128) if not big else (16, 32, 64, 128, 256))
+    else:
+        c["dim"], c["size"] = L.dim_size_from(c, ["T"], (16, 128, 1024, 1024, 2049) if not big else L.GROUPS)
+    return c
+
+
+def _dir_large_expand(c):
+    a, b = c["small"]
+    seed = c["seed"]
+    if c["dim"] == "utts":
+        nutt, lobe = c["size"], [0, 1, 1, 2][b % 4]
+        Ts = [L.pick(1, 7, seed, 1, u) for u in range(nutt)]
+    else:
+        nutt = 1 + a % 2
+        Ts = [c["size"]] + [L.pick(1, 9, seed, 1, u) for u in range(1, nutt)]
+        # a lobe that keeps the number of chunks of the long utterance below about 140
+        lobe = [c["size"] // 8, c["size"] // 16 + 1, 15, 16, 17, 31, 32, 33, 63, 64, 65, c["size"] // 3][b]
+        if c["policy"] == "fixed":
+            lobe = max(lobe, c["size"] // 128)
+        elif c["policy"] == "ref":
+            lobe = min(lobe, 33)
+    utts = []
+    for u, T in enumerate(Ts):
+        ali = None
+        if c["has_ali"]:
+            if T > 300:
+                # long runs so that the number of segments stays moderate
+                src = _Det(seed, 2, u)
+                ali, lab = [], src(0, 2)
+                while len(ali) < T:
+                    ali.extend([lab] * src(max(T // 60, 1), max(T // 20, 2)))
+                    lab = (lab + src(1, 2)) % 3
+                ali = ali[:T]
+            else:
+                ali = _expand_ali_row("short", T, seed, u)
+        ref = None
+        if c["has_ref"]:
+            R = L.pick(0, 4, seed, 3, u) if T <= 300 else L.pick(15, 33, seed, 3, u)
+            ref = []
+            for r in range(R):
+                src = _Det(seed, 4, u, r)
+                if src(0, 3):
+                    s = src(0, T)
+                    e = src(s, min(T, s + max(T // 10, 3)))
+                else:
+                    s = e = -1
+                ref.append([11 * r + 5, s, e])
+            if c["policy"] == "ref":
+                known = [t for t in ref if t[1] >= 0]
+                if known:
+                    last = max(known, key=lambda t: t[2])
+                    ref.remove(last)
+                    ref.append(last)
+        utts.append({"T": T, "ali": ali, "ref": ref})
+    return dict(c, utts=utts, lobe=lobe)
+
+
+def _dir_check_any(case):
+    # the large cases live in the same sub-check as the small ones (the recorded finding KF-C10-1 is keyed by sub-check name)
+    return _dir_check(_dir_large_expand(case) if "dim" in case else case)
+
+
+subcheck("C10", "chunk_dir_cli", lambda tier: gen.weighted((10, _dir_cases(tier)), (1, _dir_large_cases(tier))), 264, 4400,
+         doc="a generated well-formed data directory (1..3|5 utterances, feat + optional ali / ref) is chunked by the "
+             "chunk-torch-spect-data-dir command under generated flags (policy, window, lobe, pad mode, partial, retain, format): "
+             "exactly the oracle's chunk names are written, every chunk's feat / ali / ref equals the oracle's restriction of the "
+             "source, and (contained tokens, relative boundaries) the output passes validate_spect_data_set; also with source tensors "
+             "saved as non-contiguous / offset views, float64 features, isolated +-inf feature values, and the command run a second time "
+             "over its own complete or half-deleted output; one case in eleven has 15..17, 31..33, 63..65, 127..129 (thorough: also "
+             "255..257) utterances, or one utterance of 15..17, 127..129, 1023..1025, 2049 frames (thorough: every threshold) with a lobe "
+             "giving at most about 140 chunks, expanded from (seed, utterance) by a pure integer hash",
+         required_classes=["policy_fixed", "policy_ali", "policy_ref", "validated", "padded_chunk", "ref_chunk_with_token",
+                           "saved_view", "feat_float64", "nonfinite_features", "rerun_same", "rerun_partial"],
+         timeout_s=3000)(_dir_check_any)
